@@ -169,6 +169,11 @@ impl Sym {
     let (t, v) = with(|c| declare(c, name, VAL_LO, VAL_HI, default));
     Sym { t, v, tag: 0, tok: new_token(name) }
   }
+  /// a symbolic integer with its own domain (durations: positive, small)
+  pub fn var_in(name: &str, lo: i64, hi: i64, default: i64) -> Sym {
+    let (t, v) = with(|c| declare(c, name, lo, hi, default));
+    Sym { t, v, tag: 0, tok: new_token(name) }
+  }
   pub fn konst(v: i64) -> Sym {
     let t = with(|c| c.term(Term::Const(v)));
     Sym { t, v, tag: 0, tok: new_token("const") }
